@@ -120,3 +120,20 @@ func GoID() int64 {
 	id, _ := strconv.ParseInt(string(s[:i]), 10, 64)
 	return id
 }
+
+// SelfCreator returns the id of the goroutine that created the calling goroutine (0 if unknown).
+func SelfCreator() int64 {
+	buf := make([]byte, 16<<10)
+	n := runtime.Stack(buf, false)
+	s := string(buf[:n])
+	i := strings.LastIndex(s, " in goroutine ")
+	if i < 0 {
+		return 0
+	}
+	s = s[i+len(" in goroutine "):]
+	if j := strings.IndexAny(s, "\n "); j >= 0 {
+		s = s[:j]
+	}
+	id, _ := strconv.ParseInt(s, 10, 64)
+	return id
+}
